@@ -63,6 +63,13 @@ type pg struct {
 func Program(r *R, o Opts) string {
 	p := newPG(r, o)
 	n := r.Range(o.MinStmts, o.MaxStmts)
+	if r.P(o.Boards * 0.2) {
+		// a file that consists of board declarations only
+		for p.sb.Len() == 0 {
+			p.boards(0)
+		}
+		return p.sb.String()
+	}
 	if r.P(o.Vars) {
 		p.varsBlock(0)
 	}
@@ -102,7 +109,16 @@ func newPG(r *R, o Opts) *pg {
 	return p
 }
 
-func (p *pg) ind(d int) { p.sb.WriteString(strings.Repeat("  ", d)) }
+func (p *pg) ind(d int) {
+	p.sb.WriteString(strings.Repeat("  ", d))
+	if p.o.Hostile && p.r.P(0.04) {
+		// Unicode white space is white space to the parser too
+		p.sb.WriteString(Pick(p.r, UnicodeSpaces))
+	}
+}
+
+// UnicodeSpaces are non-ASCII runes for which unicode.IsSpace holds.
+var UnicodeSpaces = []string{"\u00a0", "\u0085", "\u1680", "\u2000", "\u2003", "\u2009", "\u200a", "\u2028", "\u2029", "\u202f", "\u205f", "\u3000"}
 
 func (p *pg) name() string { return Key(p.r, Pick(p.r, p.names)) }
 
@@ -131,6 +147,9 @@ func (p *pg) keyPath() string {
 func (p *pg) eol() {
 	if p.r.P(p.o.Semis) {
 		p.sb.WriteString("; ")
+		if p.o.Hostile && p.r.P(0.1) {
+			p.sb.WriteString(Pick(p.r, UnicodeSpaces))
+		}
 		return
 	}
 	if p.r.P(p.o.Comments * 0.3) {
@@ -211,15 +230,65 @@ func (p *pg) blockString() string {
 	r := p.r
 	tag := r.Str("md", "md", "", "go", "latex", "txt")
 	body := r.Str("# hi\n- a\n- b", "x := 1 | 2", "a || b ||| c", "\\frac{1}{2}", "line", "`code` *em* **strong**", "|| nested ||")
+	if r.P(0.4) {
+		// multi-line body: nested indentation, blank and whitespace-only interior lines,
+		// trailing whitespace
+		var lines []string
+		for k := r.Range(2, 6); k > 0; k-- {
+			switch r.Intn(5) {
+			case 0:
+				lines = append(lines, "")
+			case 1:
+				lines = append(lines, strings.Repeat(" ", r.Range(1, 8)))
+			case 2:
+				lines = append(lines, strings.Repeat(" ", r.Range(0, 6))+plainName(r)+"()")
+			case 3:
+				lines = append(lines, "\t"+plainName(r))
+			default:
+				lines = append(lines, plainName(r)+" {"+strings.Repeat(" ", r.Intn(3)))
+			}
+		}
+		lines = append(lines, "end")
+		body = "\n" + strings.Repeat("  ", p.depth+1) + strings.Join(lines, "\n"+strings.Repeat("  ", p.depth+1)) + "\n" + strings.Repeat("  ", p.depth)
+	}
 	bars := "|"
 	for strings.Contains(body, bars) {
 		bars += "|"
 	}
 	if r.P(0.2) {
 		bars += "`"
+		if strings.HasPrefix(body, "\n") {
+			return bars + tag + body + bars[1:] + "|"
+		}
 		return bars + tag + " " + body + " " + bars[1:] + "|"
 	}
+	if strings.HasPrefix(body, "\n") {
+		return bars + tag + body + bars
+	}
 	return bars + tag + " " + body + " " + bars
+}
+
+// blockComment renders a block comment, sometimes multi-line with whitespace-only lines.
+func (p *pg) blockComment(d int) string {
+	r := p.r
+	if r.P(0.5) {
+		return "\"\"\" block\ncomment \"\"\"\n"
+	}
+	ind := strings.Repeat("  ", d)
+	var sb strings.Builder
+	sb.WriteString("\"\"\"\n")
+	for k := r.Range(1, 5); k > 0; k-- {
+		switch r.Intn(4) {
+		case 0:
+			sb.WriteString("\n")
+		case 1:
+			sb.WriteString(ind + strings.Repeat(" ", r.Range(1, 6)) + "\n")
+		default:
+			sb.WriteString(ind + strings.Repeat(" ", r.Intn(5)) + plainName(r) + "\n")
+		}
+	}
+	sb.WriteString(ind + "\"\"\"\n")
+	return sb.String()
 }
 
 func (p *pg) stmt(d int, scope string, allowMap bool) {
@@ -228,7 +297,7 @@ func (p *pg) stmt(d int, scope string, allowMap bool) {
 	if r.P(o.Comments * 0.5) {
 		p.ind(d)
 		if r.P(0.2) {
-			p.sb.WriteString("\"\"\" block\ncomment \"\"\"\n")
+			p.sb.WriteString(p.blockComment(d))
 		} else {
 			p.sb.WriteString("# " + strings.ReplaceAll(p.label(), "\n", " ") + "\n")
 		}
@@ -466,6 +535,16 @@ func (p *pg) stmt(d int, scope string, allowMap bool) {
 	}
 }
 
+// closeBrace ends a block: `}` optionally followed by a trailing line comment.
+func (p *pg) closeBrace(d int) {
+	p.ind(d)
+	p.sb.WriteString("}")
+	if p.r.P(p.o.Comments * 0.4) {
+		p.sb.WriteString(" # " + strings.ReplaceAll(p.label(), "\n", " "))
+	}
+	p.sb.WriteString("\n")
+}
+
 func (p *pg) tail() string {
 	s := p.sb.String()
 	if i := strings.LastIndexByte(s, '\n'); i >= 0 {
@@ -517,8 +596,7 @@ func (p *pg) mapBody(d int, scope string) {
 			p.stmt(d+1, scope, true)
 		}
 	}
-	p.ind(d)
-	p.sb.WriteString("}\n")
+	p.closeBrace(d)
 }
 
 func (p *pg) attr(d int) {
@@ -756,10 +834,8 @@ func (p *pg) boards(d int) {
 			if d < 1 && r.P(0.25) {
 				p.boards(d + 2)
 			}
-			p.ind(d + 1)
-			p.sb.WriteString("}\n")
+			p.closeBrace(d + 1)
 		}
-		p.ind(d)
-		p.sb.WriteString("}\n")
+		p.closeBrace(d)
 	}
 }
